@@ -28,6 +28,10 @@ impl Tera {
     /// recomputes the autoescape flag of every template; does not touch the component table
     #[verifier::external_body]
     pub fn set_templates_auto_escape(&mut self)
-        ensures final(self).components == old(self).components, final(self).delimiters == old(self).delimiters
+        ensures final(self).components == old(self).components, final(self).delimiters == old(self).delimiters,
+            autoescape_fresh(final(self).templates, final(self).vx_opaque)
     { unimplemented!() }
 }
+/// every template's autoescape flag agrees with the current suffix list (unit autoescape proves that
+/// set_templates_auto_escape establishes it)
+pub uninterp spec fn autoescape_fresh(t: HashMap<String, Template>, rest: VxOpaque) -> bool;
